@@ -74,6 +74,18 @@ def oracle(case, ctx, label=True):
             return ctx.fail(f"inner/{ex_}/raised-although-the-expectation-holds/{type(e).__name__}", f"left keys {lkeys} right keys {rkeys}: {e}")
         if R.frozen_rows(R.cells(rx)) != want:
             return ctx.fail(f"inner/{ex_}/rows-differ-from-the-key-equal-pairs", f"left keys {lkeys} right keys {rkeys}: got {R.cells(rx)} want {want}")
+    if lkeys and len(lkeys) <= 12:
+        ctx.ev()
+        try:
+            rs_ = lt.inner_join(lt, lon, lon, expect="many_to_many")
+        except S.SerifTypeError:
+            rs_ = None                  # (key kinds the library does not join on)
+        except Exception as e:  # noqa: BLE001
+            return ctx.fail(f"inner/self-join/raised/{type(e).__name__}", f"left keys {lkeys}: {e}")
+        if rs_ is not None:
+            want_s = R.frozen_rows(pairs_to_rows(ref_inner(lrows, lrows, lkeys, lkeys), lrows, lrows, len(lt.cols()), len(lt.cols())))
+            if R.frozen_rows(R.cells(rs_)) != want_s:
+                return ctx.fail("inner/self-join/rows", f"left keys {lkeys}: got {R.cells(rs_)} want {want_s}")
     for side_, arg, was in (("left_on", lon, args_before[0]), ("right_on", ron, args_before[1])):
         if was is not None and (len(arg) != len(was) or any(x is not y for x, y in zip(arg, was))):
             return ctx.fail("inner/key-list-argument-modified", f"the {side_} list the caller passed was rewritten by the join: {was} -> {arg}")
